@@ -185,7 +185,8 @@ def run_crashmon(prop, tier, t0):
 def run_concmon(prop, tier, t0):
     from kv import concmon
     opts = {'quick': {'cases': 1600, 'budget_s': 60, 'free_every': 5},
-            'thorough': {'cases': 60000, 'budget_s': 1500, 'free_every': 4}}[tier]
+            'thorough': {'cases': 60000, 'budget_s': 1500, 'free_every': 4, 'dfs_bound': 2, 'dfs_max_runs': 700,
+                         'dfs_budget_s': 420}}[tier]
     merged, problems = common.run_shards('concmon', prop, tier, common.NCPU, opts,
                                          timeout=opts['budget_s'] * 3 + 240)
     c = merged['counters']
